@@ -133,3 +133,16 @@ def generate(ctx):
             ctx.corr("seq-table", P.op_seq(init, pre + [("flags",), op, ("flags",), ("readAbs",), ("readRel",)]))
             ctx.check("history", {"init": init, "ops": pre + [op], "start": "as-built"})
     ctx.count("table-ops", len(table))
+    # exhaustive small scope of the two conversions: every relative list of <= 3 (quick) / <= 4 (thorough) messages,
+    # read through the absolute view, and that absolute list read back through the relative view
+    for rel in G.enum_rel(4 if ctx.thorough else 3):
+        ctx.count("small-scope")
+        init = ("rel", rel)
+        ctx.corr("seq-small", P.op_seq(init, [("readAbs",), ("readRel",), ("flags",)]))
+        ctx.check("history", {"init": init, "ops": [("readAbs",)], "start": "as-built"})
+        try:
+            a = [from_real(m) for m in P.make_seq(init).abs._messages]
+        except Exception:
+            continue
+        ctx.corr("seq-small", P.op_seq(("abs", a), [("readRel",), ("readAbs",), ("flags",)]))
+        ctx.check("history", {"init": ("abs", a), "ops": [("readRel",)], "start": "as-built"})
